@@ -135,22 +135,28 @@ func main() {
 		for _, w := range []int{1, 2} {
 			for _, q := range []int{0, 1, 2} {
 				add(cfg{W: w, Q: q, S: 1, J: 2, Y: 1}, -1, 60*time.Second)
-				add(cfg{W: w, Q: q, S: 2, J: 1, Y: 1}, -1, 60*time.Second)
+				b := -1
+				if w == 2 && q == 0 {
+					b = 3 // unbounded does not complete in the quick budget for this one
+				}
+				add(cfg{W: w, Q: q, S: 2, J: 1, Y: 1}, b, 60*time.Second)
 				add(cfg{W: w, Q: q, S: 2, J: 1, Y: 0, releaseEarly: true}, -1, 60*time.Second)
 			}
 		}
-		add(cfg{W: 2, Q: 1, S: 2, J: 2, Y: 1}, 2, 60*time.Second)
-		add(cfg{W: 3, Q: 1, S: 1, J: 3, Y: 0}, 2, 60*time.Second)
+		// the larger configurations with a pre-emption bound that completes within the quick budget
+		// (bound 2 and unbounded: thorough)
+		add(cfg{W: 2, Q: 1, S: 2, J: 2, Y: 1}, 1, 60*time.Second)
+		add(cfg{W: 3, Q: 1, S: 1, J: 3, Y: 0}, 1, 60*time.Second)
 	} else {
 		for _, w := range []int{1, 2, 3} {
 			for _, q := range []int{0, 1, 2} {
 				for _, y := range []int{0, 1, 2} {
-					add(cfg{W: w, Q: q, S: 1, J: 2, Y: y}, -1, 5*time.Minute)
-					add(cfg{W: w, Q: q, S: 2, J: 1, Y: y}, -1, 5*time.Minute)
-					add(cfg{W: w, Q: q, S: 1, J: 3, Y: y}, 3, 5*time.Minute)
-					add(cfg{W: w, Q: q, S: 2, J: 2, Y: y}, 3, 5*time.Minute)
-					add(cfg{W: w, Q: q, S: 2, J: 1, Y: y, releaseEarly: true}, -1, 5*time.Minute)
-					add(cfg{W: w, Q: q, S: 2, J: 2, Y: y, releaseEarly: true}, 3, 5*time.Minute)
+					add(cfg{W: w, Q: q, S: 1, J: 2, Y: y}, -1, 2*time.Minute)
+					add(cfg{W: w, Q: q, S: 2, J: 1, Y: y}, -1, 2*time.Minute)
+					add(cfg{W: w, Q: q, S: 1, J: 3, Y: y}, 3, 2*time.Minute)
+					add(cfg{W: w, Q: q, S: 2, J: 2, Y: y}, 3, 2*time.Minute)
+					add(cfg{W: w, Q: q, S: 2, J: 1, Y: y, releaseEarly: true}, -1, 2*time.Minute)
+					add(cfg{W: w, Q: q, S: 2, J: 2, Y: y, releaseEarly: true}, 3, 2*time.Minute)
 				}
 			}
 		}
